@@ -66,6 +66,7 @@ def _satsolve_filein_fileout(F, cmd='minisat', verbose=0):
     sat.close()
 
     output = b''
+    foutput = []
 
     # Run the command, store its output and remove the temporary files.
     try:
@@ -85,8 +86,9 @@ def _satsolve_filein_fileout(F, cmd='minisat', verbose=0):
     except OSError:
         pass
     finally:
-        os.unlink(cnf.name)
-        os.unlink(sat.name)
+        for name in (cnf.name, sat.name):
+            if os.path.exists(name):
+                os.unlink(name)
 
     # At this point `output` is either the list ["UNSAT"] or a list of
     # the form ["SAT","v1","v2",...,"vn"] where each "vi" is either
